@@ -51,16 +51,17 @@ func (t *inProcessTransport) Send(ctx context.Context, e envelope) error {
 }
 
 func (t *inProcessTransport) Receive(ctx context.Context) (envelope, error) {
-	// The envelopes sent by the remote party before closing the
-	// transport (like a finished session) should still be delivered.
-	select {
-	case e := <-t.envChan:
-		return e, nil
-	default:
-	}
-
 	if t.isClosed() {
-		return nil, errors.New("transport is closed")
+		// The envelopes sent by the remote party before closing the
+		// transport (like a finished session) should still be delivered.
+		// They are looked for only after the transport is seen as closed,
+		// otherwise one that is sent in the meantime would be missed.
+		select {
+		case e := <-t.envChan:
+			return e, nil
+		default:
+			return nil, errors.New("transport is closed")
+		}
 	}
 	select {
 	case <-ctx.Done():
